@@ -29,7 +29,7 @@ CLAIMS["C03"] = ("other", "interprocedural taint (unprotected guards) + must-pas
     "Clauses, not the whole behaviour: (M1) no Guard::unprotected() value can reach, through any call chain, a retire that is followed by a "
     "touch of the retired object or its lock (this is what makes collect/FromIterator safe); (M2) at each of the 25 retire sites an unlink "
     "write on the object's own container precedes the retire on every value-flow path; (M3) immediate frees only on private/exclusively "
-    "owned objects; (M4) copy-loop/retire-loop agreement. Each is a necessary condition: breaking one yields a concrete use-after-free. "
+    "owned objects; (M4) copy-loop/retire-loop agreement; (M6) the forwarding marker is handed out only after next_table is set. Each is a necessary condition: breaking one yields a concrete use-after-free. "
     "Not decided: that references stay *unchanged*, the collector's own correctness, value-level aliasing beyond copies.",
     "DESIGN.md §4 C03", TRUST)
 
@@ -62,7 +62,7 @@ CLAIMS["C01"] = ("other", "MIR path rules: lock-region dataflow, edge dominance,
     "path of every writer: lock -> re-validate head by pointer identity -> only then mutate (11 lock regions, incl. no stale link reads "
     "carried into a section); bin contents written only under the bin lock, on private nodes, by the empty-bin CAS or in teardown (tree "
     "helpers lifted to call sites); both new bins published before the forwarding marker; writers that meet a forwarding marker retry in a "
-    "current table; set and pinned-reference facades are single delegations with guards paired to their collections. Each clause is a "
+    "current table; set and pinned-reference facades are single delegations with guards paired to their collections; readers descend a tree bin only under the read lock; a node's value is touched / a node reported found only after its key compared equal; a bin is read at the index computed for that very table. Each clause is a "
     "necessary condition of the property: a tree violating it admits a concrete lost/duplicated/misattributed update.",
     "DESIGN.md §4 C01", TRUST + " Lock regions are intraprocedural (guard locals); a lock handed across calls would be INCONCLUSIVE.")
 CLAIMS["C08"] = ("other", "MIR region rules (callback, read and write inside one validated lock region) + signature predicate",
@@ -80,7 +80,7 @@ CLAIMS["C18"] = ("other", "MIR unwind-edge analysis (cleanup paths, drop flags b
     "Whole structural content: every callback that runs while a bin lock is (or may be) held unwinds through the Drop of a lock guard on "
     "every cleanup path; no user code (directly or via callees) runs inside the manually released tree write-lock region; retain "
     "predicates run under no lock; no shared write or retire precedes the callback inside its critical section, so a panic leaves the "
-    "entry as found. Not decided: observable state of later operations on concrete histories.",
+    "entry as found; no callback runs between an unlink and its count adjustment. Not decided: observable state of later operations on concrete histories.",
     "DESIGN.md §4 C18", TRUST)
 
 CLAIMS["C16"] = ("proof", "signature (lifetime) rule over the type-checked API + compile-fail witnesses with compiling twins judged by rustc",
@@ -111,7 +111,7 @@ CLAIMS["C10"] = ("other", "MIR path rules (edge dominance, must-pass-through) + 
     "Clauses: exactly the last participant (won sc-1 CAS and sc-2 == stamp) can set the finishing flag; the publication block (clear "
     "next_table, swap table, retire old, store 3/4 threshold) is gated by it, ordered and complete; the next table is exactly twice as long; "
     "initiation is guarded by len < 2^30; the size_ctl bit layout holds for the evaluated constants; every won initiator/helper ticket leads "
-    "to transfer and transfer gives the ticket back on every exit; help_transfer and add_count refuse to join on the same four atoms. Not "
+    "to transfer and transfer gives the ticket back on every exit; every joining site refuses to join on the same four atoms; stride claiming hands out disjoint adjacent ranges; an initiator's table belongs to the size_ctl generation of its ticket. Not "
     "decided: 'every old bin migrated exactly once' and non-overlap of generations over all schedules (needs interleaving semantics).",
     "DESIGN.md §4 C10", TRUST)
 CLAIMS["C11"] = ("other", "lock-order graph over the resolved call graph + acquire/release pairing and park-protocol path rules",
@@ -125,7 +125,7 @@ CLAIMS["C11"] = ("other", "lock-order graph over the resolved call graph + acqui
 CLAIMS["C05"] = ("other", "ESP path-sensitive typestate over MIR + provenance (power-of-two) analysis",
     "Clauses: the entry count is adjusted exactly once per link (put: won empty-bin CAS, append, tree insert) and per unlink "
     "(compute_if_present, replace_node; clear per walked node), on every feasible path -- infeasible paths pruned by tracking the flags the "
-    "code branches on; one finisher publishes a resize and clears the resizing state; every table length has power-of-two provenance. "
+    "code branches on; one finisher publishes a resize and clears the resizing state; every table length has power-of-two provenance; transfer splits a bin by the bit hash & n into index i (zero half) and i + n. "
     "Not decided: iteration = lookup, entry placement (index i vs i+n), absence of duplicate keys, 'no forwarding marker left behind'.",
     "DESIGN.md §4 C05", TRUST + " ESP tracks the named bool/Option flag locals of each body; an untracked correlation would show up as a reported path.")
 
